@@ -77,9 +77,15 @@ def run_verus_unit(unit_name, prop, tier, only=None):
     info['outside_subset'] = excluded
     if excluded:
         keep = []
+        def excl_key(pat):
+            # obligations name functions as Type::fn (or bare fn); excluded keys are Type::fn of the enclosing impl
+            if pat in excluded:
+                return pat
+            tail = '::'.join(pat.split('::')[-2:])
+            return tail if tail in excluded else None
         for o in obls:
-            fn = o.fn_pattern.split('::')[-1]
-            if fn in excluded:
+            fn = excl_key(o.fn_pattern)
+            if fn is not None:
                 results.append(Res(o.name, 'verus', 'undecided', o.props, 'z3 (Verus)', 0,
                                    'the function uses a construct outside the verifier subset (%s): not decided by Verus; see the bounded leg' % excluded[fn], kind=o.kind))
                 log('  [undecided] %-70s outside the verifier subset: %s' % (o.name, excluded[fn][:80]))
@@ -94,7 +100,7 @@ def run_verus_unit(unit_name, prop, tier, only=None):
         inj = ve.Injector(texts['base'], rsx.Trace())
         ok_fns = []
         for f in can_fns:
-            if f.split('::')[-1] in excluded:
+            if f in excluded or '::'.join(f.split('::')[-2:]) in excluded:
                 continue
             try:
                 inj.proof(f, '$START', '        proof { assert(false); } /*canary*/')
